@@ -43,6 +43,39 @@ func (c *cmp) contentEqual(mv model.Value, gv ps.Object) bool {
 			}
 		}
 		return true
+	case "real":
+		g, ok := gv.(ps.Real)
+		return ok && mv.R.CloseTo(float64(g))
+	case "bool":
+		g, ok := gv.(ps.Boolean)
+		return ok && bool(g) == mv.B
+	case "dict":
+		g, ok := gv.(ps.Dict)
+		if !ok {
+			return false
+		}
+		cell, err := c.b.cell(mv.ID, c.over)
+		if err != nil || cell.K != "dict" || len(cell.Dict) != len(g) {
+			return false
+		}
+		for k, ev := range cell.Dict {
+			o, ok := g[ps.Name(k)]
+			if !ok || !c.contentEqual(ev, o) {
+				return false
+			}
+		}
+		return true
+	case "cmapinfo":
+		g, ok := gv.(*ps.CMapInfo)
+		if !ok {
+			return false
+		}
+		cell, err := c.b.cell(mv.ID, c.over)
+		if err != nil {
+			return false
+		}
+		c.lastErr = c.cmapinfo(cell, g, "CodeMap")
+		return c.lastErr == nil
 	case "arr":
 		g, ok := gv.(ps.Array)
 		if !ok || len(g) != mv.Len {
@@ -67,6 +100,46 @@ func (c *cmp) contentEqual(mv model.Value, gv ps.Object) bool {
 		return true
 	}
 	return false
+}
+
+// ContentCompare compares a library object with a model value by content
+// (no identity), for results that come from an interpreter the harness does
+// not own (ReadCMap).
+func ContentCompare(base []model.Cell, over model.Heap, mv model.Value, gv ps.Object) error {
+	b := &Binding{Base: base}
+	c := &cmp{b: b, over: over}
+	if mv.T == "dict" {
+		g, ok := gv.(ps.Dict)
+		if !ok {
+			return fmt.Errorf("library returned %T, not a dictionary", gv)
+		}
+		cell, err := b.cell(mv.ID, over)
+		if err != nil {
+			return err
+		}
+		for k, ev := range cell.Dict {
+			o, ok := g[ps.Name(k)]
+			if !ok {
+				return fmt.Errorf("key /%s missing in the returned dictionary", k)
+			}
+			if !c.contentEqual(ev, o) {
+				if c.lastErr != nil {
+					return fmt.Errorf("/%s: %v", k, c.lastErr)
+				}
+				return fmt.Errorf("/%s: model %s, library %s", k, Show(ev), ShowObj(o))
+			}
+		}
+		for k := range g {
+			if _, ok := cell.Dict[string(k)]; !ok {
+				return fmt.Errorf("unexpected key /%s in the returned dictionary", k)
+			}
+		}
+		return nil
+	}
+	if !c.contentEqual(mv, gv) {
+		return fmt.Errorf("model %s, library %s", Show(mv), ShowObj(gv))
+	}
+	return nil
 }
 
 type gEntry struct {
